@@ -707,8 +707,20 @@ def _own_ctrl_start(ck, R, fi, x):
                  any(canon_fact(e, p_) in empties for e, p_ in decompose(n.test.ast, n.polarity))]
         ok = bool(ga) and g.path_avoiding(addn[0], [g.exit], avoid=ga + empty,
                                           start_successors_only=True) is None
+        # gather() without return_exceptions=True stops waiting at the first task that fails (an output
+        # task can fail: its result events are sent outside its try) and leaves the others running
+        waits_all = all(is_const_true(kwarg(a.value, 'return_exceptions'))
+                        for n in ga for a in walk_shallow(n.ast)
+                        if isinstance(a, ast.Await) and isinstance(a.value, ast.Call) and call_name(a.value) == 'gather')
+        if ok and not waits_all:
+            ck.ob(R, f"{fi.fid} :: {norm1(x)}", False,
+                  "the final gather() of 'start' mode lacks return_exceptions=True: the first failing output task "
+                  "ends the wait, the control task fails, the remaining output tasks outlive the block's stop and "
+                  "stop_data is never delivered", fi, x)
+            return
     ck.ob(R, f"{fi.fid} :: {norm1(x)}", ok,
-          "every started output task is collected and gathered before the control task ends"
+          "every started output task is collected and gathered (return_exceptions=True: all of them are "
+          "awaited whatever their outcome) before the control task ends"
           if ok else "output tasks of 'start' mode are not all awaited at the end", fi, x)
 
 
@@ -728,3 +740,14 @@ def _own_shield(ck, R, fi, x):
     ck.ob(R, f"{fi.fid} :: {norm1(x)}", ok,
           "the inner task is awaited through shield() until it is done" if ok else
           "shield_cancel can return or raise while the inner task is still running", fi, x)
+
+
+def kwarg(call, name):
+    for k in call.keywords:
+        if k.arg == name:
+            return k.value
+    return None
+
+
+def is_const_true(node):
+    return isinstance(node, ast.Constant) and node.value is True
